@@ -6,7 +6,7 @@ from ..core import hx, lst, WILD
 from ..ref import P, L, to32, le
 
 REQUIRED = ['seed:corner', 'seed:random', 'msg:len0', 'msg:len128', 'msg:long', 'ctx:0', 'ctx:255', 'ctx:256-refused',
-            'ctx:1000-refused', 'keypair:match', 'keypair:mismatch', 'keypair:mismatch-torsion', 'keypair:pkcs8', 'keypair:mismatch-undecodable', 'accept:own', 'reject:flip-key', 'reject:flip-msg',
+            'ctx:1000-refused', 'keypair:match', 'keypair:mismatch', 'keypair:mismatch-torsion', 'keypair:pkcs8', 'keypair:mismatch-undecodable', 'keypair:serde-64', 'accept:own', 'reject:flip-key', 'reject:flip-msg',
             'reject:flip-ctx', 'reject:flip-R', 'reject:flip-S', 'hazmat:passthrough', 'batch:own', 'batch:large', 'traits:pure', 'traits:prehash', 'hazmat:mixed-digests']
 
 MSG_LENS = [0, 1, 63, 64, 65, 111, 112, 127, 128, 129]
@@ -21,6 +21,11 @@ def keypair_import(ctx, seed, pub, Ab, ok, cls):
     ctx.add('sig.pkcs8_kp', seed.hex(), pub.hex(), expect=e2, cls=cls + ['keypair:pkcs8'])
     der = bytes.fromhex('3051020101300506032b657004220420') + seed + bytes.fromhex('812100') + pub
     ctx.add('sig.pkcs8_der', der.hex(), expect=e2, cls=cls + ['keypair:pkcs8'])
+    # serde carries a SigningKey as its 32 secret bytes only: a 64-byte secret||public byte string (matching or not) is
+    # not a serialised SigningKey and must not be taken for one with the public half ignored
+    import struct
+    ctx.add('sd.de', 'signingkey', 'bin', (struct.pack('<Q', 64) + seed + pub).hex(), expect=['err'], cls=cls + ['keypair:serde-64'])
+    ctx.add('sd.de', 'signingkey', 'bytes', (seed + pub).hex(), expect=['err'], cls=cls + ['keypair:serde-64'])
 
 
 def flip(b, rng):
